@@ -438,7 +438,11 @@ class Unit:
         m = self.mangle(t)
         if m not in self.type_done:
             self.type_done[m] = None      # guards recursion
-            self._define(t, m)
+            try:
+                self._define(t, m)
+            except ExtractionError:
+                del self.type_done[m]     # (a failed definition must fail again the next time it is asked for)
+                raise
         return 'struct ' + m
 
     def _define(self, t, m):
@@ -664,11 +668,18 @@ class FnTr:
         self.tmp += 1
         return '%s%d' % (pre, self.tmp)
 
+    def rc(self, s):
+        """names that are local to the function body (type aliases, constexpr integers) and class constants written out"""
+        ls = getattr(self, 'local_subst', None)
+        if ls:
+            s = re.sub(r'(?<![:\w])(%s)\b' % '|'.join(map(re.escape, ls)), lambda m: ls[m.group(1)], s)
+        return self.u.resolve_consts(s, self.cls)
+
     def ty(self, n):
         s = qt(n)
         if s is None:
             raise ExtractionError('untyped node %s' % n.get('kind'))
-        return self.u.canon(parse_type(self.u.resolve_consts(s, self.cls)), self.cls)
+        return self.u.canon(parse_type(self.rc(s)), self.cls)
 
     def cty(self, n_or_ty):
         t = n_or_ty if isinstance(n_or_ty, Ty) else self.ty(n_or_ty)
@@ -718,13 +729,22 @@ class FnTr:
         if fi.is_ctor:
             fi.ret = fi.cls
         else:
-            rsr = self.u.resolve_consts(rs, self.cls)
-            if rsr == 'auto' or 'auto' in rsr.split():
+            rsr = self.rc(rs)
+            local_aliases = set()
+            for b in kids(d):
+                if b['kind'] == 'CompoundStmt':
+                    for st in kids(b):
+                        if st['kind'] == 'DeclStmt':
+                            local_aliases |= {v.get('name') for v in kids(st) if v['kind'] in ('TypeAliasDecl', 'TypedefDecl')}
+            if rsr == 'auto' or 'auto' in rsr.split() or rsr.strip() in local_aliases:
+                # (a deduced return type printed with a function-local alias name: taken from the return statement)
                 fi.ret = None
                 fi.ret_auto = True
             else:
                 try:
                     rt = u.canon(parse_type(rsr), self.cls)
+                    if rt.name != 'void':
+                        u.cty(rt.base())      # (a deduced type printed with an alias local to another function does not resolve)
                     fi.ret = None if rt.name == 'void' else rt
                 except ExtractionError:
                     # a return type spelled with an unevaluated constant expression (outputOrder(size - 1) + 1):
@@ -793,6 +813,9 @@ class FnTr:
         body = [c for c in kids(d) if c['kind'] == 'CompoundStmt'][0]
         if fi.rkind == 'value':
             self.emit('%s bs_dummy;' % self.u.cty(fi.ret.base()))
+        self.entry_pos = len(self.out)
+        self.heap_regs = {}
+        self.local_subst = {}
         if fi.is_ctor:
             self.emit('%s self;' % self.u.cty(fi.cls))
             for ci in [c for c in d.get('inner', []) if c.get('kind') == 'CXXCtorInitializer']:
@@ -810,7 +833,7 @@ class FnTr:
         ks = kids(ci)
         if 'anyInit' in ci:
             f = ci['anyInit']['name']
-            ft = self.u.canon(parse_type(self.u.resolve_consts(qt(ci['anyInit']), self.cls)), self.cls)
+            ft = self.u.canon(parse_type(self.rc(qt(ci['anyInit']))), self.cls)
             if not ks:
                 return
             v = self.init_value(ks[0], ft)
@@ -886,6 +909,8 @@ class FnTr:
             for v in ks:
                 if v['kind'] == 'VarDecl':
                     self.vardecl(v)
+                elif v['kind'] in ('TypeAliasDecl', 'TypedefDecl') and v['type'].get('desugaredQualType') and v.get('name'):
+                    self.local_subst[v['name']] = v['type']['desugaredQualType']
                 elif v['kind'] in ('StaticAssertDecl', 'TypeAliasDecl', 'TypedefDecl', 'UsingDirectiveDecl'):
                     pass
                 else:
@@ -973,7 +998,11 @@ class FnTr:
         if c1.lines:
             raise ExtractionError('%s: loop condition needs hoisting' % self.fi.cname)
         with Cap(self) as c2:
-            ie = self.expr(inc) if inc.get('kind') else ''
+            self.in_for_inc = True
+            try:
+                ie = self.expr(inc) if inc.get('kind') else ''
+            finally:
+                self.in_for_inc = False
         if c2.lines:
             raise ExtractionError('%s: loop increment needs hoisting' % self.fi.cname)
         self.emit('for (; %s; %s)' % (ce, ie))
@@ -1056,9 +1085,13 @@ class FnTr:
     def vardecl(self, v):
         ks = kids(v)
         name = v['name']
-        rawt = parse_type(self.u.resolve_consts(v['type'].get('desugaredQualType') or v['type']['qualType'], self.cls)) \
+        rawt = parse_type(self.rc(v['type'].get('desugaredQualType') or v['type']['qualType'])) \
             if 'auto' not in v['type']['qualType'] or 'desugaredQualType' in v['type'] else None
         init = ks[-1] if ks else None
+        if v.get('constexpr') and init is not None:
+            cv = self.u.const_eval(init)
+            if isinstance(cv, int):
+                self.local_subst[name] = str(cv)
         is_ref = ('&' in v['type']['qualType'])
         if is_ref:
             if init is None:
@@ -1077,7 +1110,12 @@ class FnTr:
             # const reference: a value copy; the referent must not be written while it lives
             val = self.expr(init)
             self.emit('const %s %s = %s;' % (self.cty(it), name, val))
-            self.alias_deps[v['id']] = set(re.findall(r'[A-Za-z_][A-Za-z_0-9]*', val)) - {name}
+            # (a reference is bound once: later changes of the index expressions do not move it, so only the
+            # containers outside the index brackets must stay unwritten)
+            outer = val
+            while re.search(r'\[[^\[\]]*\]', outer):
+                outer = re.sub(r'\[[^\[\]]*\]', '', outer)
+            self.alias_deps[v['id']] = set(re.findall(r'[A-Za-z_][A-Za-z_0-9]*', outer)) - {name}
             self.live[-1].append(v['id'])
             return
         t = self.ty(v) if rawt is not None else self.ty(init)
@@ -1259,9 +1297,42 @@ class ExprMixin:
             return '%s.c[%s]' % (o, '0' if name == 'front' else str(ot.args[1] - 1))
         raise ExtractionError('front/back on %r' % ot)
 
+    def it_heap(self, t):
+        """(heap array, number of slots) that iterators of type t point into: vectors of T live in the ghost heap of
+        grid vectors, vectors of other element types in a heap of their own (declared with the vector type)"""
+        vt = t.args[1]
+        m = self.u.mangle(vt)
+        if m == 'vec_T':
+            return 'BS_GRIDMEM', 'BS_NG'
+        self.u.cty(vt)
+        if ('heap', m) not in self.u.type_done:
+            self.u.type_done[('heap', m)] = True
+            self.u.type_defs.append(
+                'struct %s BS_HEAP_%s[BS_NH]; size_t BS_HEAP_%s_next;\n'
+                'static inline size_t bs_heap_put_%s(struct %s v) { size_t id = BS_HEAP_%s_next; BS_CAPACITY(id < BS_NH); '
+                'BS_HEAP_%s[id] = v; BS_HEAP_%s_next = id + 1; return id; }' % (m, m, m, m, m, m, m, m))
+        return 'BS_HEAP_' + m, 'BS_NH'
+
     def it_deref(self, itn):
         it = self.lval_or_tmp(itn)
-        return 'BS_GRIDMEM[bs_gid(%s.gid)].d[bs_idx(%s.pos, BS_GRIDMEM[bs_gid(%s.gid)].n)]' % (it, it, it)
+        H, N = self.it_heap(self.ty(itn))
+        if H == 'BS_GRIDMEM':
+            return 'BS_GRIDMEM[bs_gid(%s.gid)].d[bs_idx(%s.pos, BS_GRIDMEM[bs_gid(%s.gid)].n)]' % (it, it, it)
+        return '%s[bs_hid(%s.gid)].d[bs_idx(%s.pos, %s[bs_hid(%s.gid)].n)]' % (H, it, it, H, it)
+
+    def heap_reg(self, v, vt):
+        """the heap slot that holds (a snapshot of) the const vector parameter v: registered once, on entry"""
+        if v not in self.heap_regs:
+            m = self.u.mangle(vt)
+            g = 'bs_hid_' + re.sub(r'\W', '_', v)
+            if m == 'vec_T':
+                line = 'size_t %s = bs_make_shared_vec(%s).id;' % (g, v)
+            else:
+                self.it_heap(Ty('__gnu_cxx::__normal_iterator', [vt.args[0], vt]))
+                line = 'size_t %s = bs_heap_put_%s(%s);' % (g, m, v)
+            self.out.insert(self.entry_pos, '  ' + line)
+            self.heap_regs[v] = g
+        return self.heap_regs[v]
 
     def rit_deref(self, itn):
         s = strip(itn)
@@ -1843,6 +1914,36 @@ class StdMixin:
             if name == 'reserve':
                 self.expr(args[0])
                 return ''
+            if name == 'resize' and len(args) in (1, 2) and not is_arrow:
+                # vector::resize(n[, val]): elements below min(size, n) keep their values, new elements equal val
+                # (value-initialised without val)
+                v = self.lval(objn)
+                et = ot.args[0]
+                cnt = self.newtmp()
+                self.emit('size_t %s = %s;' % (cnt, self.expr(args[0])))
+                last = strip(args[-1])
+                if len(args) == 2 and last['kind'] != 'CXXDefaultArgExpr':
+                    val = self.expr(args[1])
+                else:
+                    val = self.value_init(et)
+                vt = self.newtmp()
+                self.emit('%s %s = %s;' % (self.cty(et), vt, val))
+                self.emit('BS_CAPACITY(%s <= BS_CAP);' % cnt)
+                old = self.newtmp()
+                self.emit('%s %s = %s;' % (self.cty(ot), old, v))
+                comps = self.components(et)
+                self.emit('#if BS_CAP <= 16')
+                self.emit('for (size_t bs_f = 0; bs_f < BS_CAP; bs_f++) if (bs_f >= %s.n && bs_f < %s) %s.d[bs_f] = %s;' % (old, cnt, v, vt))
+                self.emit('#else')
+                hv = self.newtmp()
+                self.emit('%s %s; %s = %s;' % (self.cty(ot), hv, v, hv))
+                self.emit('__CPROVER_assume(__CPROVER_forall { size_t bs_f; (bs_f < BS_CAP) ==> ((bs_f >= %s.n && bs_f < %s) ? (%s) : (%s)) });' % (
+                    old, cnt, ' && '.join('%s.d[bs_f]%s == %s%s' % (v, c, vt, c) for c in comps),
+                    ' && '.join('%s.d[bs_f]%s == %s.d[bs_f]%s' % (v, c, old, c) for c in comps)))
+                self.emit('#endif')
+                self.emit('%s.n = %s;' % (v, cnt))
+                self.note_write(v)
+                return ''
             if name == 'push_back':
                 v = self.lval(objn)
                 x = self.expr(args[0])
@@ -1858,6 +1959,16 @@ class StdMixin:
                     self.emit('struct it_vec_T %s; %s.gid = bs_spid(%s); %s.pos = %s;' % (
                         t, t, p, t, '0' if name in ('begin', 'cbegin') else 'BS_GRIDMEM[bs_spid(%s)].n' % p))
                     self.u.cty(Ty('__gnu_cxx::__normal_iterator', [Ty('double'), Ty('std::vector', [Ty('double')])]))
+                    return t
+                so = strip(objn)
+                if so['kind'] == 'DeclRefExpr' and so['referencedDecl'].get('kind') == 'ParmVarDecl' and \
+                        'const' in so['type'].get('qualType', '').split():
+                    # iterator over a const vector parameter: the vector is entered into the ghost heap on entry
+                    v = self.lval(objn)
+                    g = self.heap_reg(v, ot)
+                    itt = Ty('__gnu_cxx::__normal_iterator', [ot.args[0], Ty('std::vector', [ot.args[0]])])
+                    t = self.newtmp()
+                    self.emit('%s %s; %s.gid = %s; %s.pos = %s;' % (self.u.cty(itt), t, t, g, t, '0' if name in ('begin', 'cbegin') else v + '.n'))
                     return t
                 # iterator over a local vector: a bare position, the container is known syntactically
                 v = self.lval(objn)
@@ -1921,8 +2032,15 @@ class StdMixin:
         if t0.name == '__gnu_cxx::__normal_iterator':
             if op in ('operator==', 'operator!=', 'operator<', 'operator<=', 'operator>', 'operator>='):
                 a, b = self.lval_or_tmp(operands[0]), self.lval_or_tmp(operands[1])
-                self.emit('__CPROVER_assert(%s.gid == %s.gid, "[C09] iterators into the same container are compared");' % (a, b))
-                return '(%s.pos %s %s.pos)' % (a, op[8:], b)
+                # (the check is a call inside the expression so that the comparison can stand in a loop condition)
+                return '(bs_same_container(%s.gid, %s.gid) && %s.pos %s %s.pos)' % (a, b, a, op[8:], b)
+            if op == 'operator++':
+                a = self.lval(operands[0])
+                H, N = self.it_heap(t0)
+                self.note_write(a)
+                if len(operands) == 2 and not discard and not getattr(self, 'in_for_inc', False):
+                    raise ExtractionError('%s: value of a post-incremented iterator is used' % self.fi.cname)
+                return '(%s.pos = bs_it_inc(%s.pos, %s[%s.gid %% %s].n))' % (a, a, H, a, N)
             if op == 'operator+':
                 a = self.lval_or_tmp(operands[0])
                 k = self.expr(operands[1])
